@@ -37,7 +37,9 @@ void buildFaultObject(ezc3d::c3d& c, int kind) {
         case 2: for (int k = 0; k < 6; ++k) { Param p("FILL" + std::to_string(k), std::string(180, 'd')); p.set(std::vector<std::string>(1, std::string(190, 's'))); c.parameter("PAD", p); } break;   // 3+ blocks of parameters
         case 3: fillData(c, 2, 1, 2, 3); break;                                          // data of 120 bytes
         case 4: fillData(c, 20, 4, 5, 60); break;                                        // ~24 kB of data
-        default: fillData(c, 100, 10, 10, 150); break;                                   // ~300 kB of data
+        case 5: fillData(c, 100, 10, 10, 150); break;                                    // ~300 kB of data
+        case 6: fillData(c, 80, 0, 0, 40); break;                                        // many points per frame, no analogs (51 kB)
+        default: fillData(c, 255, 0, 0, 3); break;                                       // 255 points per frame, 3 frames (12 kB)
     }
 }
 
